@@ -39,9 +39,9 @@ def _spell(rng, c, native):
 
 
 def correspondence(ctx):
-    n = 10000 if ctx.thorough else 2000
+    n = 40000 if ctx.thorough else 2000
     T.run_corr(ctx, "corr_advisory", "advisory-model", n)
-    per = 250 if ctx.thorough else 50
+    per = 1000 if ctx.thorough else 50
     schemes = [k for k in VR.RANGE_CLASS_BY_SCHEMES]
     for scheme in schemes:
         rc = VR.RANGE_CLASS_BY_SCHEMES[scheme]
